@@ -1,3 +1,390 @@
 import KeepVerif.Model.C14
+/-!
+# C14 — Block-synchronized state machine runs every phase in its block window
+
+Theorems over `Model/C14.lean` for every event list (block timings, message deliveries,
+`Initiate` durations) and every chain of `(delay, active)` states, and over the GJKR /
+result-publication chains extracted from the source (`Gen/C14.lean`, regenerated on every run).
+-/
 namespace KeepVerif.C14
+
+/-! ## T1 tie: the real chains -/
+
+/-- The sum over the real GJKR state chain (walked through `Next()`) is `gjkr.ProtocolBlocks()`. -/
+theorem gjkr_total_eq_ProtocolBlocks : total gjkrChain = Gen.C14.gjkrProtocolBlocks := by decide
+
+/-- The sum over the real result-publication chain is `result.PrePublicationBlocks()`. -/
+theorem result_total_eq_PrePublicationBlocks :
+    total resultChain = Gen.C14.resultPrePublicationBlocks := by decide
+
+/-- every state of both chains has a delay and an active length (lists are aligned) -/
+theorem chains_aligned :
+    Gen.C14.gjkrDelays.length = Gen.C14.gjkrActives.length ∧
+    Gen.C14.gjkrStates.length = Gen.C14.gjkrDelays.length ∧
+    Gen.C14.resultDelays.length = Gen.C14.resultActives.length ∧
+    Gen.C14.resultStates.length = Gen.C14.resultDelays.length ∧
+    Gen.C14.silentStateDelayBlocks = 0 ∧ Gen.C14.silentStateActiveBlocks = 0 := by decide
+
+/-! ## nominal schedule arithmetic -/
+
+theorem endOf_eq (e : Nat) (l : List Spec) : endOf e l = e + total l := by
+  unfold total
+  induction l generalizing e with
+  | nil => simp [endOf]
+  | cons s r ih => simp only [endOf]; rw [ih, ih (0 + s.delay + s.active)]; omega
+
+theorem endOf_append (e : Nat) (a b : List Spec) : endOf e (a ++ b) = endOf (endOf e a) b := by
+  induction a generalizing e with
+  | nil => rfl
+  | cons s r ih => simp [endOf, ih]
+
+theorem sched_append (e : Nat) (a b : List Spec) :
+    sched e (a ++ b) = sched e a ++ sched (endOf e a) b := by
+  induction a generalizing e with
+  | nil => rfl
+  | cons s r ih => simp [sched, endOf, ih]
+
+/-! ## the invariant: the machine follows the nominal schedule -/
+
+/-- block-counter calls made so far when the current state (after the states `pre`) is in
+    `phase`; `none` for an impossible combination. -/
+def callsAt (start : Nat) (pre : List Spec) (cur : Spec) : Phase → Option (List Call)
+  | .waitStart s => if s = start ∧ pre = [] then some [.wait start] else none
+  | .waitDelay t | .initiating t =>
+    if t = endOf start pre + cur.delay then some (.wait start :: sched start pre ++ [.wait t]) else none
+  | .loop w =>
+    if w = endOf start pre + cur.delay + cur.active then some (.wait start :: sched start (pre ++ [cur])) else none
+  | .finished => none
+
+def Inv (start : Nat) (all : List Spec) (c : Cfg) : Prop :=
+  ∃ pre, all = pre ++ c.cur :: c.rest ∧ pre.length = c.k ∧
+    if c.phase = .finished then
+      (∃ l, Call.wait start :: sched start all = c.calls ++ l) ∧
+      (∀ k e, c.res = .final k e →
+        e = endOf start all ∧ k + 1 = all.length ∧ c.calls = .wait start :: sched start all)
+    else c.res = .running ∧ callsAt start pre c.cur c.phase = some c.calls
+
+def OutInv (start : Nat) (all : List Spec) : Out → Prop
+  | .quiet c => Inv start all c
+  | .fired c w => Inv start all c ∧ c.phase = .loop w
+
+theorem loopStage_inv {start all} (c : Cfg) (w : Nat) (h : Inv start all { c with phase := .loop w }) :
+    OutInv start all (loopStage c w) := by
+  unfold loopStage
+  simp only
+  split
+  · exact ⟨by simpa [Inv, callsAt] using h, rfl⟩
+  · simpa [OutInv, Inv, callsAt] using h
+
+theorem afterInit_inv {start all} (c : Cfg) (t : Nat) (pre : List Spec)
+    (hall : all = pre ++ c.cur :: c.rest) (hk : pre.length = c.k) (hres : c.res = .running)
+    (ht : t = endOf start pre + c.cur.delay)
+    (hcalls : c.calls = .wait start :: sched start pre ++ [.wait t]) :
+    OutInv start all (afterInit c t) := by
+  unfold afterInit
+  split
+  · refine ⟨pre, hall, hk, ?_⟩
+    simp only [if_true]
+    refine ⟨⟨.arm (t + c.cur.active) :: sched (t + c.cur.active) c.rest, ?_⟩, by simp⟩
+    rw [hall, sched_append, hcalls]
+    simp [sched, ht]
+  · apply loopStage_inv
+    refine ⟨pre, hall, hk, ?_⟩
+    simp [callsAt, hres, ht, hcalls, sched_append, sched, endOf]
+
+theorem initStage_inv {start all} (c : Cfg) (t : Nat) (pre : List Spec)
+    (hall : all = pre ++ c.cur :: c.rest) (hk : pre.length = c.k) (hres : c.res = .running)
+    (ht : t = endOf start pre + c.cur.delay)
+    (hcalls : c.calls = .wait start :: sched start pre ++ [.wait t]) :
+    OutInv start all (initStage c t) := by
+  unfold initStage
+  simp only
+  split
+  · exact ⟨pre, hall, hk, by simp [callsAt, hres, ht, hcalls]⟩
+  · exact afterInit_inv _ t pre hall hk hres ht hcalls
+
+theorem delayStage_inv {start all} (c : Cfg) (e : Nat) (pre : List Spec)
+    (hall : all = pre ++ c.cur :: c.rest) (hk : pre.length = c.k) (hres : c.res = .running)
+    (he : e = endOf start pre)
+    (hcalls : c.calls = .wait start :: sched start pre) :
+    OutInv start all (delayStage c e) := by
+  unfold delayStage
+  simp only
+  split
+  · exact initStage_inv _ _ pre hall hk hres (by simp [he]) (by simp [hcalls])
+  · exact ⟨pre, hall, hk, by simp [callsAt, hres, he, hcalls]⟩
+
+def Out.cfg : Out → Cfg
+  | .quiet c => c
+  | .fired c _ => c
+
+theorem delayStage_rest (c : Cfg) (e : Nat) : (delayStage c e).cfg.rest = c.rest := by
+  unfold delayStage initStage afterInit loopStage
+  simp only
+  repeat' split
+  all_goals rfl
+
+theorem initStage_rest (c : Cfg) (e : Nat) : (initStage c e).cfg.rest = c.rest := by
+  unfold initStage afterInit loopStage
+  simp only
+  repeat' split
+  all_goals rfl
+
+theorem afterInit_rest (c : Cfg) (e : Nat) : (afterInit c e).cfg.rest = c.rest := by
+  unfold afterInit loopStage
+  simp only
+  repeat' split
+  all_goals rfl
+
+theorem loopStage_rest (c : Cfg) (e : Nat) : (loopStage c e).cfg.rest = c.rest := by
+  unfold loopStage
+  simp only
+  repeat' split
+  all_goals rfl
+
+theorem chain_inv {start all} (rest : List Spec) (o : Out) (h : OutInv start all o)
+    (hrest : o.cfg.rest = rest) :
+    Inv start all (chain rest o) := by
+  induction rest generalizing o with
+  | nil =>
+    cases o with
+    | quiet c => simpa [chain, OutInv] using h
+    | fired c w =>
+      obtain ⟨⟨pre, hall, hk, hinv⟩, hph⟩ := h
+      simp only [Out.cfg] at hrest
+      simp only [hph, reduceCtorEq, if_false, callsAt] at hinv
+      split at hinv
+      · rename_i hw
+        obtain ⟨hres, hcalls⟩ := hinv
+        simp only [Option.some.injEq] at hcalls
+        simp only [chain]
+        split
+        · refine ⟨pre, hall, hk, ?_⟩
+          simp only [if_true]
+          exact ⟨⟨[], by simp [hall, hrest, ← hcalls]⟩, by simp⟩
+        · refine ⟨pre, hall, hk, ?_⟩
+          simp only [if_true]
+          refine ⟨⟨[], by simp [hall, hrest, ← hcalls]⟩, ?_⟩
+          intro k e hke
+          simp only [Res.final.injEq] at hke
+          refine ⟨?_, ?_, ?_⟩
+          · rw [← hke.2, hw, hall, hrest, endOf_append]; simp [endOf]
+          · rw [← hke.1, hall, hrest]; simp [hk]
+          · simp [hall, hrest, ← hcalls]
+      · exact absurd hinv.2 (by simp)
+  | cons s rest' ih =>
+    cases o with
+    | quiet c => simpa [chain, OutInv] using h
+    | fired c w =>
+      obtain ⟨⟨pre, hall, hk, hinv⟩, hph⟩ := h
+      simp only [Out.cfg] at hrest
+      simp only [hph, reduceCtorEq, if_false, callsAt] at hinv
+      split at hinv
+      · rename_i hw
+        obtain ⟨hres, hcalls⟩ := hinv
+        simp only [Option.some.injEq] at hcalls
+        simp only [chain]
+        split
+        · refine ⟨pre, hall, hk, ?_⟩
+          simp only [if_true]
+          refine ⟨⟨sched w (s :: rest'), ?_⟩, by simp⟩
+          rw [hall, hrest, ← hcalls]
+          have : pre ++ c.cur :: s :: rest' = (pre ++ [c.cur]) ++ (s :: rest') := by simp
+          rw [this, sched_append, endOf_append]
+          simp [endOf, hw]
+        · apply ih
+          · apply delayStage_inv _ w (pre ++ [c.cur])
+            · simp [hall, hrest]
+            · simp [hk]
+            · exact hres
+            · rw [hw, endOf_append]; simp [endOf]
+            · simp [← hcalls]
+          · rw [delayStage_rest]
+      · exact absurd hinv.2 (by simp)
+
+theorem settle_inv {start all} (c : Cfg) (h : Inv start all c) : Inv start all (settle c) := by
+  obtain ⟨pre, hall, hk, hinv⟩ := h
+  unfold settle
+  split
+  · rename_i s hph
+    split
+    · simp only [hph, reduceCtorEq, if_false, callsAt] at hinv
+      obtain ⟨hres, hc⟩ := hinv
+      split at hc
+      · rename_i hs
+        simp only [Option.some.injEq] at hc
+        apply chain_inv _ _ _ (delayStage_rest _ _)
+        exact delayStage_inv c s pre hall hk hres (by simp [hs.1, hs.2, endOf]) (by simp [← hc, hs.1, hs.2, sched])
+      · exact absurd hc (by simp)
+    · exact ⟨pre, hall, hk, hinv⟩
+  · rename_i t hph
+    split
+    · simp only [hph, reduceCtorEq, if_false, callsAt] at hinv
+      obtain ⟨hres, hc⟩ := hinv
+      split at hc
+      · rename_i ht
+        simp only [Option.some.injEq] at hc
+        apply chain_inv _ _ _ (initStage_rest _ _)
+        exact initStage_inv c t pre hall hk hres ht hc.symm
+      · exact absurd hc (by simp)
+    · exact ⟨pre, hall, hk, hinv⟩
+  · exact ⟨pre, hall, hk, hinv⟩
+  · rename_i w hph
+    apply chain_inv _ _ _ (loopStage_rest _ _)
+    apply loopStage_inv
+    refine ⟨pre, hall, hk, ?_⟩
+    simpa [hph] using hinv
+  · exact ⟨pre, hall, hk, hinv⟩
+
+/-- fields the invariant does not mention may change freely -/
+theorem inv_congr {start all} (c c' : Cfg) (h : Inv start all c)
+    (h1 : c'.phase = c.phase) (h2 : c'.cur = c.cur) (h3 : c'.rest = c.rest) (h4 : c'.k = c.k)
+    (h5 : c'.calls = c.calls) (h6 : c'.res = c.res) : Inv start all c' := by
+  unfold Inv at *
+  rw [h1, h2, h3, h4, h5, h6]
+  exact h
+
+theorem step_inv {start all} (c : Cfg) (e : Ev) (h : Inv start all c) : Inv start all (step c e) := by
+  cases e with
+  | block hb => exact settle_inv _ (inv_congr c _ h rfl rfl rfl rfl rfl rfl)
+  | msg id =>
+    simp only [step]
+    split
+    · exact inv_congr c _ h rfl rfl rfl rfl rfl rfl
+    · exact settle_inv _ (inv_congr c _ h rfl rfl rfl rfl rfl rfl)
+  | release =>
+    simp only [step]
+    split
+    · rename_i t hph
+      obtain ⟨pre, hall, hk, hinv⟩ := h
+      simp only [hph, reduceCtorEq, if_false, callsAt] at hinv
+      obtain ⟨hres, hc⟩ := hinv
+      split at hc
+      · rename_i ht
+        simp only [Option.some.injEq] at hc
+        apply chain_inv _ _ _ (afterInit_rest _ _)
+        exact afterInit_inv c t pre hall hk hres ht hc.symm
+      · exact absurd hc (by simp)
+    · exact h
+
+theorem init_inv (h0 start : Nat) (s : Spec) (rest : List Spec) :
+    Inv start (s :: rest) (init h0 start s rest) := by
+  apply settle_inv
+  exact ⟨[], rfl, rfl, by simp [callsAt]⟩
+
+theorem exec_inv (h0 start : Nat) (s : Spec) (rest : List Spec) (evs : List Ev) :
+    Inv start (s :: rest) (exec h0 start s rest evs) := by
+  unfold exec
+  generalize hc : init h0 start s rest = c
+  have h : Inv start (s :: rest) c := hc ▸ init_inv h0 start s rest
+  clear hc
+  induction evs generalizing c with
+  | nil => exact h
+  | cons e r ih => exact ih _ (step_inv c e h)
+
+theorem drain_inv {start all} (n : Nat) (c : Cfg) (h : Inv start all c) : Inv start all (drain n c) := by
+  induction n generalizing c with
+  | zero => exact h
+  | succ n ih =>
+    apply ih
+    unfold drainStep
+    split <;> first | exact h | exact step_inv _ _ h
+
+theorem run_inv (h0 start : Nat) (s : Spec) (rest : List Spec) (evs : List Ev) :
+    Inv start (s :: rest) (run h0 start s rest evs) :=
+  drain_inv _ _ (exec_inv h0 start s rest evs)
+
+/-! ## the property -/
+
+/-- **calls_follow_nominal_schedule**: for every block/message/initiation timing, at every
+    moment of the execution (`exec` = after any event list, `run` = after the final drain) the
+    block-counter calls made so far are a prefix of the nominal schedule
+    `Wait start, Wait (e₀+d₀), Arm (e₀+d₀+a₀), Wait (e₁+d₁), …` with `e₀ = start`,
+    `e_{k+1} = e_k + d_k + a_k`: state `k` is entered at `e_k = start + Σ_{j<k}(d_j+a_j)`, its
+    `Initiate` is gated by `e_k + d_k`, its end by `e_k + d_k + a_k` — never by the actual,
+    possibly late, block heights. -/
+theorem calls_follow_nominal_schedule (h0 start : Nat) (s : Spec) (rest : List Spec) (evs : List Ev) :
+    ∃ l, Call.wait start :: sched start (s :: rest) = (exec h0 start s rest evs).calls ++ l := by
+  obtain ⟨pre, hall, hk, hinv⟩ := exec_inv h0 start s rest evs
+  split at hinv
+  · exact hinv.1
+  · obtain ⟨_, hc⟩ := hinv
+    generalize (exec h0 start s rest evs).phase = ph at hc
+    generalize (exec h0 start s rest evs).calls = calls at hc
+    generalize hcur : (exec h0 start s rest evs).cur = cur at hc hall
+    generalize hrest : (exec h0 start s rest evs).rest = rst at hall
+    rw [hall]
+    cases ph with
+    | waitStart x =>
+      simp only [callsAt] at hc
+      split at hc
+      · simp only [Option.some.injEq] at hc; exact ⟨sched start (pre ++ cur :: rst), by simp [← hc]⟩
+      · exact absurd hc (by simp)
+    | waitDelay t =>
+      simp only [callsAt] at hc
+      split at hc
+      · rename_i ht
+        simp only [Option.some.injEq] at hc
+        refine ⟨.arm (t + cur.active) :: sched (t + cur.active) rst, ?_⟩
+        rw [sched_append, ← hc]; simp [sched, ht]
+      · exact absurd hc (by simp)
+    | initiating t =>
+      simp only [callsAt] at hc
+      split at hc
+      · rename_i ht
+        simp only [Option.some.injEq] at hc
+        refine ⟨.arm (t + cur.active) :: sched (t + cur.active) rst, ?_⟩
+        rw [sched_append, ← hc]; simp [sched, ht]
+      · exact absurd hc (by simp)
+    | loop w =>
+      simp only [callsAt] at hc
+      split at hc
+      · rename_i hw
+        simp only [Option.some.injEq] at hc
+        refine ⟨sched w rst, ?_⟩
+        have : pre ++ cur :: rst = (pre ++ [cur]) ++ rst := by simp
+        rw [this, sched_append, endOf_append, ← hc]; simp [endOf, hw]
+      · exact absurd hc (by simp)
+    | finished => simp [callsAt] at hc
+
+/-- **end_block_eq**: whenever `Execute` returns normally it returns the last state of the chain
+    and exactly `start + Σ (delay + active)`, after having made every nominal call — for every
+    timing of blocks, messages and `Initiate` durations. -/
+theorem end_block_eq (h0 start : Nat) (s : Spec) (rest : List Spec) (evs : List Ev) (k e : Nat)
+    (h : (run h0 start s rest evs).res = .final k e) :
+    e = start + total (s :: rest) ∧ k + 1 = (s :: rest).length ∧
+    (run h0 start s rest evs).calls = .wait start :: sched start (s :: rest) := by
+  obtain ⟨pre, hall, hk, hinv⟩ := run_inv h0 start s rest evs
+  split at hinv
+  · have := hinv.2 k e h
+    rw [endOf_eq] at this
+    exact this
+  · rw [hinv.1] at h; exact absurd h (by simp)
+
+/-- **members_in_lockstep**: two members started at the same block on the same chain end at the
+    same block and issue the same block-counter calls, whatever blocks/messages each of them saw
+    and however long their `Initiate` calls took. -/
+theorem members_in_lockstep (start : Nat) (s : Spec) (rest : List Spec)
+    (h0 h0' : Nat) (evs evs' : List Ev) (k e k' e' : Nat)
+    (h : (run h0 start s rest evs).res = .final k e)
+    (h' : (run h0' start s rest evs').res = .final k' e') :
+    e = e' ∧ k = k' ∧ (run h0 start s rest evs).calls = (run h0' start s rest evs').calls := by
+  obtain ⟨a, b, c⟩ := end_block_eq h0 start s rest evs k e h
+  obtain ⟨a', b', c'⟩ := end_block_eq h0' start s rest evs' k' e' h'
+  exact ⟨by omega, by omega, by rw [c, c']⟩
+
+/-- GJKR members started at block `start` finish at `start + ProtocolBlocks()`. -/
+theorem gjkr_end_block (h0 start : Nat) (evs : List Ev) (s : Spec) (rest : List Spec)
+    (hc : gjkrChain = s :: rest) (k e : Nat) (h : (run h0 start s rest evs).res = .final k e) :
+    e = start + Gen.C14.gjkrProtocolBlocks := by
+  rw [← gjkr_total_eq_ProtocolBlocks, hc]
+  exact (end_block_eq h0 start s rest evs k e h).1
+
+/-- non-vacuity: a run with a late block jump and a silent state ends normally at `start + total`
+    (by `simp` unfolding; no kernel evaluation of the run). -/
+example : (run 0 2 { delay := 1, active := 2 } [{ delay := 0, active := 0 }] [.block 9]).res
+    = .final 1 5 := by
+  simp [run, exec, init, settle, delayStage, initStage, afterInit, loopStage, chain, drain,
+    drainStep, step]
+
 end KeepVerif.C14
